@@ -26,6 +26,7 @@ def run(tier):
     c.replay("kv", ef, variant="redis", extra={"redis_tick_ms": 100}, timeout=2400)
     expiry_race(c)
     brief_records(c)
+    far_ttl(c)
     c.assumptions += ["in-memory backend: real clock, 30 ms ticks; calls run at even ticks, expirations sit at odd ticks; a behaviour during "
                       "which the host stalled past its window is re-run with a doubled tick and, after 3 attempts, not judged",
                       "Redis backend: miniredis virtual clock (FastForward), 1 s ticks",
@@ -34,6 +35,23 @@ def run(tier):
                          "time advanced past some expirations up to twice, every operation kind as the first to touch the expired key) "
                          "replayed on both backends; the contract drops expired records at Advance, so any reply that differs between "
                          "'expired' and 'deleted' is a mismatch")
+
+
+def far_ttl(c):
+    """Expirations days, weeks, years and a century ahead on the Redis backend, the server's clock moved by whole days
+    (FarTrace.tla): a record is held exactly while its expiration lies ahead."""
+    import json
+    trace = c.path("trace", "kvfar.ndjson")
+    c.run_vh(["drive", "kvfar", "-seed", c.seed, "-n", 6 if c.quick() else 60, "-out", trace], timeout=600)
+    cfg = c.write_cfg("kv", "FarTrace", postcondition="Accepted")
+    ok, at, _ = c.validate_trace("kv", "FarTrace", cfg, trace, label="FarTrace")
+    lines = open(trace).read().splitlines()
+    if ok:
+        c.traces_validated += sum(1 for x in lines if "FarBegin" in x)
+        return
+    start = max(i for i in range(at) if "FarBegin" in lines[i])
+    c.report_failure("kv: a record whose expiration lies ahead is gone / an expired one is still there (Redis, clock moved by days)",
+                     {"rejected_at_line": at, "history": lines[start:at], "trace": {"comp": "kv", "module": "FarTrace"}})
 
 
 def brief_records(c):
